@@ -190,6 +190,10 @@ def points(tier):
     for seam in SEAMS:
         for mn in ("X", "API", "uwi"):
             pts.append(["traps", seam, mn])
+    for sec in ("Parameter_", "Curves_", "Well_"):
+        for mn in ("X", "API", "UWI"):
+            for chunk in range(0, 5220, 6 * CHUNK):
+                pts.append(["read", sec, mn, chunk])
     for sec in ("Well", "Parameter", "Version", "custom", "Curves"):
         for mn in ("X", "API", "UWI", "api", "Uwi"):
             for chunk in range(0, 5220, CHUNK):
@@ -198,6 +202,10 @@ def points(tier):
                     # header value conversion is independent of the data-section read_policy / null_policy
                     pts.append(["read", sec, mn, chunk, "nopolicy"])
                     pts.append(["read", sec, mn, chunk, "comma-delimiter"])
+                    # the file declares DLM COMMA / TAB for its data section: header values are judged as before
+                    pts.append(["read", sec, mn, chunk, "dlm-comma"])
+                    if chunk % (4 * CHUNK) == 0:
+                        pts.append(["read", sec, mn, chunk, "dlm-tab"])
     # the items lasio itself looks at after parsing (NULL, STRT, STOP, STEP): one value per file, traps and short strings
     for mn in ("NULL", "STRT", "STOP", "STEP"):
         pts.append(["read1", "Well", mn])
@@ -260,19 +268,25 @@ CHUNK = 60
 READ_SECS = {
     "Well": ("~Well", "well20"), "Parameter": ("~Parameter", "param20"), "Version": ("~Version", "version"),
     "custom": ("~Xtra stuff", "custom"), "Curves": ("~Curve", "curves"),
+    # the same section kinds under titles written with underscores (not the LAS 3.0 _Data/_Parameter/_Definition forms)
+    "Parameter_": ("~PARAMETER_INFORMATION_BLOCK", "param20"), "Curves_": ("~CURVE_INFORMATION_BLOCK", "curves"),
+    "Well_": ("~WELL_INFORMATION_BLOCK", "well20"),
 }
 
 
-RKW = {None: {}, "nopolicy": {"read_policy": (), "null_policy": "none"}, "comma-delimiter": {"read_policy": "comma-delimiter"}}
+RKW = {None: {}, "nopolicy": {"read_policy": (), "null_policy": "none"}, "comma-delimiter": {"read_policy": "comma-delimiter"},
+       "dlm-comma": {}, "dlm-tab": {}}
 
 
 def run_read(sec, mnemonic, chunk, policy=None):
     title, seam = READ_SECS[sec]
     colon_ok = SEAMS[seam][4]
-    strs = [s for s in all_short(3)[chunk:chunk + CHUNK] if (colon_ok or ":" not in s) and not (sec == "Curves" and ".." in s)]
+    strs = [s for s in all_short(3)[chunk:chunk + CHUNK] if (colon_ok or ":" not in s) and not (sec.startswith("Curves") and ".." in s)]
     # unique names for X keep the quadratic duplicate-suffix bookkeeping out of the way; API/UWI must keep their name
     lines = ["%s.U %s : d" % (mnemonic if mnemonic != "X" else "X%d" % k, s) for k, s in enumerate(strs)]
     head = "~Version\nVERS. 2.0 : v\nWRAP. NO : w\n"
+    if policy in ("dlm-comma", "dlm-tab"):
+        head += "DLM. %s : delimiter of the data section\n" % policy[4:].upper()
     if sec == "Version":
         text = head + "\n".join(lines) + "\n~Well\nNULL. -999.25 : n\n"
     else:
@@ -281,10 +295,13 @@ def run_read(sec, mnemonic, chunk, policy=None):
     vio = []
     try:
         las = lasio.read(text, mnemonic_case="preserve", ignore_data=True, **RKW[policy])
-        key = {"Well": "Well", "Parameter": "Parameter", "Version": "Version", "custom": "Xtra stuff", "Curves": "Curves"}[sec]
+        key = {"Well": "Well", "Parameter": "Parameter", "Version": "Version", "custom": "Xtra stuff", "Curves": "Curves",
+               "Parameter_": "Parameter", "Curves_": "Curves", "Well_": "Well"}[sec]
+        if sec.endswith("_") and not len(las.sections.get(key, [])):
+            key = title[1:]   # where such a title is filed is not this property's subject: the items are taken from wherever they are
         items = list(las.sections[key])
         if sec == "Version":
-            items = items[2:]
+            items = items[3:] if policy in ("dlm-comma", "dlm-tab") else items[2:]
     except Exception as e:
         return [V("read-raises", seam, mnemonic, "<chunk %d>" % chunk, "read succeeds", "%s: %s" % (type(e).__name__, str(e)[:200]))], len(strs), set()
     if len(items) != len(strs):
